@@ -193,6 +193,7 @@ type retRec struct {
 }
 
 type frame struct {
+	base  *Term // absolute guard of the call site; block guards inside the frame are relative to it
 	ex    *Exec
 	fn    *ssa.Function
 	env   map[ssa.Value]Value
@@ -208,13 +209,16 @@ func (ex *Exec) callFunction(fn *ssa.Function, args []Value, bind []Value, g *Te
 	if fn.Blocks == nil {
 		unsupported("call of function without body: %s", fn)
 	}
+	if g.IsFalse() {
+		return ex.zeroResult(fn.Signature)
+	}
 	if ex.depth >= ex.maxDepth {
 		unsupported("inlining depth exceeded at %s", fn)
 	}
 	ex.depth++
 	defer func() { ex.depth-- }()
 	ex.funcsSeen[fn.String()] = true
-	fr := &frame{ex: ex, fn: fn, env: map[ssa.Value]Value{}, edges: map[*ssa.BasicBlock][]edge{}}
+	fr := &frame{ex: ex, fn: fn, env: map[ssa.Value]Value{}, edges: map[*ssa.BasicBlock][]edge{}, base: g}
 	if len(args) != len(fn.Params) {
 		panic(fmt.Sprintf("arity mismatch calling %s: %d vs %d", fn, len(args), len(fn.Params)))
 	}
@@ -225,7 +229,7 @@ func (ex *Exec) callFunction(fn *ssa.Function, args []Value, bind []Value, g *Te
 		fr.env[fv] = bind[i]
 	}
 	fi := ex.info(fn)
-	fr.edges[fn.Blocks[0]] = []edge{{nil, g, nil}}
+	fr.edges[fn.Blocks[0]] = []edge{{nil, True, nil}}
 	for _, b := range fi.rpo {
 		if li := fi.loopOf[b]; li != nil {
 			if li.header == b {
@@ -275,7 +279,7 @@ func (fr *frame) runLoop(li *loopInfo) {
 			break
 		}
 		if iter >= ex.unroll {
-			ex.unwinds = append(ex.unwinds, guarded{hg, fmt.Sprintf("loop unrolling bound %d reached in %s", ex.unroll, fr.fn)})
+			ex.unwinds = append(ex.unwinds, guarded{And(fr.base, hg), fmt.Sprintf("loop unrolling bound %d reached in %s", ex.unroll, fr.fn)})
 			break
 		}
 		for _, b := range li.blocks {
@@ -348,7 +352,7 @@ func (fr *frame) runBlock(b *ssa.BasicBlock) {
 		gs = append(gs, e.g)
 	}
 	g := Or(gs...)
-	if g.IsFalse() {
+	if g.IsFalse() || And(fr.base, g).IsFalse() {
 		return
 	}
 	// phis (parallel)
@@ -667,8 +671,11 @@ type ElemRef struct {
 	Idx *Term
 }
 
-func (fr *frame) step(ins ssa.Instruction, g *Term, b *ssa.BasicBlock) {
+func (fr *frame) step(ins ssa.Instruction, lg *Term, b *ssa.BasicBlock) {
 	ex := fr.ex
+	// lg: guard relative to the frame (used for control flow and value merging);
+	// g: absolute guard (used for side effects: stores, panics, assertions, calls)
+	g := And(fr.base, lg)
 	where := func() string { return ex.prog.Fset.Position(ins.Pos()).String() }
 	if debugLift {
 		debugWhere = where()
@@ -817,16 +824,16 @@ func (fr *frame) step(ins ssa.Instruction, g *Term, b *ssa.BasicBlock) {
 		fr.env[x] = fr.typeAssert(x, g, where())
 	case *ssa.If:
 		c := fr.term(x.Cond)
-		fr.addEdge(b, b.Succs[0], And(g, c))
-		fr.addEdge(b, b.Succs[1], And(g, Not(c)))
+		fr.addEdge(b, b.Succs[0], And(lg, c))
+		fr.addEdge(b, b.Succs[1], And(lg, Not(c)))
 	case *ssa.Jump:
-		fr.addEdge(b, b.Succs[0], g)
+		fr.addEdge(b, b.Succs[0], lg)
 	case *ssa.Return:
 		vals := make([]Value, len(x.Results))
 		for i, r := range x.Results {
 			vals[i] = fr.eval(r)
 		}
-		fr.rets = append(fr.rets, retRec{g, vals})
+		fr.rets = append(fr.rets, retRec{lg, vals})
 	case *ssa.Panic:
 		ex.panicIf(g, "explicit panic at "+where())
 	default:
